@@ -432,12 +432,14 @@ def run_live(spec):
 
     # (1) initiator side: a scripted peer feeds crafted DATA frames to a real Gateway
     for rnd in range(6 if spec["tier"] == "quick" else 60):
-        em = gb.get_execmodel("thread")
-        io_a, io_b = pairs.pipe_ios(em, em)
-        tee = pairs.TeeIO(io_a)
-        gw = execnet.Gateway(tee, execnet.XSpec("popen//id=live"))
-        peer_out = io_b.outfile  # what the gateway will read
-        peer_in = io_b.infile
+        sp = pairs.ScriptedPeer(tee=True)
+        tee = sp.io_a
+        gw = sp.gw
+
+        class _Out:
+            write = staticmethod(sp.feed)
+
+        peer_out = _Out
         try:
             settings = [(True, False), (False, False), (True, True), (False, True)]
             rng.shuffle(settings)
@@ -485,25 +487,15 @@ def run_live(spec):
         except BaseException as e:
             res.violation(f"live-harness-exception:{type(e).__name__}", repr(e))
         finally:
-            try:
-                peer_out.close()
-            except OSError:
-                pass
-            gw.join(5)
-            for f in (peer_in,):
-                try:
-                    f.close()
-                except OSError:
-                    pass
+            sp.shutdown(5)
 
     # (2) worker side: RECONFIGURE frames received by a WorkerGateway steer what remote code sees
     for rnd in range(4 if spec["tier"] == "quick" else 40):
-        em = gb.get_execmodel("thread")
-        io_a, io_b = pairs.pipe_ios(em, em)
-        worker = gb.WorkerGateway(io=io_b, id="w", _startcount=2)
-        t = threading.Thread(target=worker.serve, daemon=True)
-        t.start()
-        out, inp = io_a.outfile, io_a.infile
+        si = pairs.ScriptedInitiator("thread")
+
+        class out:
+            write = staticmethod(si.feed)
+
         try:
             cid = 1
             for gwcfg in (None, (False, True), (True, True)):
@@ -521,9 +513,7 @@ def run_live(spec):
                     want = ["str" if eff[0] else "bytes", "bytes" if eff[1] else "str"]
                     got = []
                     while True:
-                        hdr = io_a.read(9)
-                        code, ch, ln = struct.unpack("!bii", hdr)
-                        payload = io_a.read(ln)
+                        code, ch, payload = si.read_frame()
                         if ch != cid:
                             got.append(f"frame for foreign channel {ch} code {code}")
                         elif code == M["CHANNEL_DATA"]:
@@ -544,9 +534,8 @@ def run_live(spec):
         finally:
             try:
                 out.write(codec.frame(M["GATEWAY_TERMINATE"]))
-                out.close()
             except OSError:
                 pass
-            t.join(5)
+            si.close(5)
     res.sample({"live": "scripted peer -> Gateway channels with 4 coercion settings, callbacks and receive"})
     return res
